@@ -393,7 +393,11 @@ def bank(focus=None):
                 return dict(confirmed=True, input=inp, observed=dict(bytes_on_wire=repr(r["out"][:120]), handler_calls=r["handler_calls"], upload_calls=r["upload_calls"], violated=bad),
                             clause="outcome independent of segmentation; at most one dispatch; only valid requests dispatched; invalid ones answered 59/50")
     # ---- C15: request timer ------------------------------------------------------------------------
-    for line in (b"", b"gemini://exam", b"titan://example.org/up.txt;size=50\r\npartial"):
+    # the peer may go silent anywhere: in the middle of a multi-byte character of the request line, with bytes that are no text at
+    # all, part-way through binary upload content, and with a long pending prefix (whatever the timer does with them, it answers)
+    for line in (b"", b"gemini://exam", b"titan://example.org/up.txt;size=50\r\npartial", b"gemini://example.org/caf\xc3", b"\xff\xfe\x00\x80",
+                 b"titan://example.org/i.png;size=50;mime=image/png\r\n\x89PNG\r\n\x1a\n\x00\xff", b"gemini://example.org/" + "\u00e9".encode() * 40 + b"\xe6\x97",
+                 b"gemini://example.org/a" + "\u65e5".encode() * 30):
         tried += 1
         r = run(drive([line] if line else [b""], "sync", "ok", None, "ok" if line.startswith(b"titan") else None, fire_timeout=0))
         bad = []
